@@ -475,3 +475,29 @@ impl ResolvedInputRegion {
         }
     }
 }
+
+/// Verification-only access to the crate-private region operations (see /verif/DESIGN.md §5).
+#[cfg(kani)]
+impl<'a> DeserializationContext<'a> {
+    pub fn verif_push_region(&mut self, start: usize, length: usize) {
+        self.push_region(InputRegion::new(start, length));
+    }
+
+    pub fn verif_push_region_at(&mut self, start: usize, pos: usize, end: usize) {
+        self.push_region(InputRegion { start, pos, end });
+    }
+
+    /// Returns (start, pos, end) of the popped region, relative to the parent as desert reports it.
+    pub fn verif_pop_region(&mut self) -> (usize, usize, usize) {
+        let region = self.pop_region();
+        (region.start, region.pos, region.end)
+    }
+
+    pub fn verif_pos(&self) -> usize {
+        self.pos()
+    }
+
+    pub fn verif_region_depth(&self) -> usize {
+        self.region_stack.len()
+    }
+}
